@@ -224,6 +224,15 @@ def eno3_flux(ctx, dim, axis, case):
         U[ai] = U[ai] + cv
         p = Poly.generic(ctx, "p", nd, 2, cubic_axis=axis)
         g = Poly({e: v * cv for e, v in p.c.items()})
+    elif case in ("tie_front", "tie_back"):
+        # the face velocity sum is EXACTLY zero on the front (back) face of the centre cell: u(x) = s*(x - x_face)
+        s = ctx.scalar("s", default=0.7)
+        ctx.assume(s != 0) if ctx.sym else None
+        xf = pt[ai] + (h / 2 if case == "tie_front" else -h / 2)
+        vel = Poly({(0, 0, 0): -s * xf, tuple(1 if k == ai else 0 for k in range(3)): s})
+        U[ai] = vel.sample(ctx, shape, h, base)
+        p = Poly.generic(ctx, "p", nd, 1)
+        g = vel * p
     else:
         # velocity linear in the advection coordinate, vanishing between the centre cell and its right neighbour
         s = ctx.scalar("s", positive=True)
@@ -267,7 +276,7 @@ def main():
             chk.add(vector_ops, real_t=rt, op="forcing_update", dim=dim)
             chk.add(vector_ops, real_t=rt, op="penalised_update", dim=dim)
             for axis in "xyz"[:dim]:
-                for case in ("positive", "negative", "sign_change"):
+                for case in ("positive", "negative", "sign_change", "tie_front", "tie_back"):
                     chk.add(eno3_flux, real_t=rt, dim=dim, axis=axis, case=case)
         chk.add(scalar_ops, real_t=rt, op="outplane_curl", dim=2)
         chk.add(vector_ops, real_t=rt, op="inplane_curl", dim=2)
